@@ -345,6 +345,113 @@ def run(world, rep, tier, only=None):
                    (n.text()[:30], n.line, lower, upper))
     rep.floor("C06.f directory-block walkers in debugfs/htree.c", n_g, 2)
 
+    # ------------------------------------------------------------------ C06.g a recursion depth read from the disk is range-checked
+    # A routine that calls itself (directly or through one other routine) with `depth - 1` does depth levels of
+    # work, each multiplying the last by the fan-out the disk dictates.  Where the first depth handed in from outside
+    # the recursion derives from an on-disk field, a comparison on that value has to lie on every path to the call.
+    n_r = 0
+    for pn in ("debugfs", "e2fsck"):
+        prog = world.program(pn, plain=True)
+        byname = {}
+        for f in prog.functions():
+            byname.setdefault(f.name, []).append(f)
+        depth_of = {}        # function key -> index of its depth parameter
+        for f in prog.functions():
+            for c in f.call_nodes():
+                cn = c.ev["x"].get("fn")
+                for idx, a in enumerate(c.ev["x"].get("a", [])):
+                    a0 = T.strip(a)
+                    if not (isinstance(a0, dict) and a0.get("k") == "b" and a0.get("o") == "-" and (T.const(a0.get("r")) or 0) >= 1):
+                        continue
+                    pv = T.strip(a0.get("l"))
+                    if not (isinstance(pv, dict) and pv.get("k") == "v" and pv.get("s") == "p" and pv["n"] in f.params):
+                        continue
+                    for g in byname.get(cn, []):
+                        back = g.key == f.key or any(c2.ev["x"].get("fn") == f.name for c2 in g.call_nodes())
+                        if back and idx < len(g.params):
+                            depth_of[g.key] = idx
+                            depth_of.setdefault(f.key, f.params.index(pv["n"]))
+        ring = {k for k in depth_of}
+        for f in prog.functions():
+            if f.key in ring or not f.file.startswith(("debugfs/", "e2fsck/")):
+                continue
+            ft = None
+            for c in f.call_nodes():
+                for g in byname.get(c.ev["x"].get("fn"), []):
+                    if g.key not in depth_of:
+                        continue
+                    a = arg(c, depth_of[g.key])
+                    if not isinstance(a, dict):
+                        continue
+                    ft = ft or taint.FnTaint(f)
+                    src = ft.sources(a)
+                    if not src:
+                        continue
+                    n_r += 1
+                    chk = ft.bound_checks(c, a)
+                    rep.ob("C06.g", site(f, "depth handed to %s() is range-checked" % g.name), bool(chk),
+                           "`%s` (line %d) is the number of levels %s() recurses through and derives from %s: %d dominating comparison(s) on it"
+                           % (T.pp(a)[:40], c.line, g.name, ",".join(sorted(src))[:60], len(chk)))
+    rep.floor("C06.g disk-derived recursion depths", n_r, 1)
+
+    # ------------------------------------------------------------------ C06.h a transfer loop survives a zero count
+    # `while (count > 0) { r = read(fd, p, count); ...; count -= r; }` makes progress only by what the call returned.
+    # read() returns 0 at the end of the file - a short or empty file is enough: with r == 0 the loop has to be left,
+    # not taken again with nothing changed.  For every loop whose progress variable is advanced by the result of
+    # read/pread, the outcome r == 0 of some test on r leads out of the loop.  (write() returning 0 for a non-zero
+    # count is not something an input can bring about; the write loops of the tree are not held to this.)
+    XFER = ("read", "pread", "pread64")
+    n_h = 0
+    seen_h = set()
+    for pn in ("e2image", "mke2fs", "e2fsck", "debugfs", "resize2fs", "tune2fs", "e2undo"):
+        prog = world.program(pn, plain=True)
+        for fn in prog.functions():
+            if fn.key in seen_h:
+                continue
+            seen_h.add(fn.key)
+            xs = [n for n in fn.events("S") if isinstance(n.ev.get("rhs"), dict) and T.strip(n.ev["rhs"]).get("k") == "c"
+                  and T.strip(n.ev["rhs"]).get("fn") in XFER and T.strip(n.ev["lhs"]).get("k") == "v"]
+            for xn in xs:
+                r = T.strip(xn.ev["lhs"])["n"]
+                hb = loop_head(fn, xn)
+                if hb is None:
+                    continue
+                body = natural_loops(fn)[hb]
+                # the result advances something the loop is controlled by
+                adv = [n for n in fn.events("S") if n in body and n.ev.get("o") in ("-=", "+=") and r in T.vars_in(n.ev.get("rhs") or {})
+                       and T.strip(n.ev["lhs"]).get("k") == "v"]
+                ctl = set()
+                for bid in {n.bid for n in body}:
+                    t_ = fn.blocks[bid].get("t")
+                    if t_ and isinstance(t_.get("c"), dict) and any(m not in body for (m, si) in fn.succ(fn.block_end(bid))):
+                        ctl |= T.vars_in(t_["c"])
+                t_ = fn.blocks[hb].get("t")
+                if t_ and isinstance(t_.get("c"), dict):
+                    ctl |= T.vars_in(t_["c"])
+                if not any(T.strip(n.ev["lhs"])["n"] in ctl for n in adv):
+                    continue
+                n_h += 1
+                h0 = fn.node(hb, 0)
+                leaves = unknown = False
+                for bid in {n.bid for n in body}:
+                    lit = fn.literal(bid)
+                    if not lit or r not in T.vars_in(lit[0]):
+                        continue
+                    v = _truth_at_zero(lit[0], r)
+                    if v is None:
+                        unknown = True
+                        continue
+                    taken = 0 if v == lit[1] else 1
+                    for (m, si) in fn.succ(fn.block_end(bid)):
+                        if si != taken:
+                            continue
+                        if m not in body or any(x not in body for x in fn.reach([m], avoid=[h0])):
+                            leaves = True
+                rep.ob("C06.h", site(fn, "loop advanced by the result of %s() is left when it returns 0" % T.strip(xn.ev["rhs"])["fn"]),
+                       leaves or unknown, "`%s` (line %d): with %s == 0 a test on it leads out of the loop: %s%s" %
+                       (xn.text()[:40], xn.line, r, leaves, " (a test on it could not be evaluated)" if unknown and not leaves else ""))
+    rep.floor("C06.h loops advanced by a transfer count", n_h, 2)
+
     # C06.b cursor lifetime in the rbtree bitmap — shared with C16.b
     try:
         from rules import C16
@@ -352,6 +459,23 @@ def run(world, rep, tier, only=None):
             pass
     except ImportError:
         pass
+
+
+def _truth_at_zero(atom, r):
+    """truth of a comparison literal when the variable r is 0 (None when it is not of a form that decides it)"""
+    a = T.strip(atom)
+    if not isinstance(a, dict):
+        return None
+    if a.get("k") == "v" and a.get("n") == r:
+        return False
+    if a.get("k") == "b" and a.get("o") in ("<", "<=", ">", ">=", "==", "!="):
+        l, rr = T.strip(a.get("l")), T.strip(a.get("r"))
+        lv = 0 if (isinstance(l, dict) and l.get("k") == "v" and l.get("n") == r) else T.const(l)
+        rv = 0 if (isinstance(rr, dict) and rr.get("k") == "v" and rr.get("n") == r) else T.const(rr)
+        if lv is None or rv is None:
+            return None
+        return {"<": lv < rv, "<=": lv <= rv, ">": lv > rv, ">=": lv >= rv, "==": lv == rv, "!=": lv != rv}[a["o"]]
+    return None
 
 
 def _all_scope_fns(world):
